@@ -55,6 +55,8 @@ func genIdx(job *Job, prop string, seed, idx uint64) *RunOutcome {
 	r := rng.Derive(seed, rng.HashString(prop), rng.HashString("idx"), idx)
 	be := job.Backends[r.Intn(len(job.Backends))]
 	rf := &RunFile{Prop: prop, Engine: "idx", Seed: seed, RunIdx: idx, Backend: be, Mode: "idx", IDSeed: r.U64(), Cfg: map[string]string{}}
+	namePairs := []string{"c|f", "c|f", "users|profile.address.country", "a-rather-long-collection-name-0123456789|x", "c|a_rather_long_field_name_for_an_index.with.a.dotted.path", "日本語のコレクション|フィールド", "orders-2024|customer.id"}
+	rf.Cfg["names"] = namePairs[r.Intn(len(namePairs))]
 	g := &Gen{R: r}
 	pool := idxValuePool(r)
 	pick := func() interface{} { return val.Clone(pool[r.Intn(len(pool))]) }
@@ -178,10 +180,15 @@ func runIdx(rf *RunFile) *RunOutcome {
 	}
 	defer func() { tx.Rollback() }()
 	// a sibling index with a prefix-related field name must never interfere
-	sibling := index.CreateIndex("c", "fx", index.SingleField, tx)
+	collName, fieldName := "c", "f"
+	if n := rf.Cfg["names"]; n != "" {
+		parts := strings.SplitN(n, "|", 2)
+		collName, fieldName = parts[0], parts[1]
+	}
+	sibling := index.CreateIndex(collName, fieldName+"x", index.SingleField, tx)
 	sibling.Add("00000000-0000-4000-8000-0000000000aa", int64(1), -1)
 	sibling.Add("00000000-0000-4000-8000-0000000000ab", "zz", -1)
-	idx := index.CreateIndex("c", "f", index.SingleField, tx).(index.RangeIndex)
+	idx := index.CreateIndex(collName, fieldName, index.SingleField, tx).(index.RangeIndex)
 	var live []idxEntry
 	fail := func(i int, rule, msg string, feats map[string]string) {
 		if feats == nil {
@@ -351,7 +358,7 @@ func runIdx(rf *RunFile) *RunOutcome {
 					out.Trouble = err
 					return out
 				}
-				idx = index.CreateIndex("c", "f", index.SingleField, tx).(index.RangeIndex)
+				idx = index.CreateIndex(collName, fieldName, index.SingleField, tx).(index.RangeIndex)
 				out.Stats.Probes["idx-scan-in-read-tx"]++
 			}
 		case "IdxScan":
